@@ -608,7 +608,7 @@ func ResolveNumericReferences(source []byte) []byte {
 					if nnext < limit && nc == 'x' || nc == 'X' {
 						start := nnext + 1
 						i, ok = ReadWhile(source, [2]int{start, limit}, IsHexDecimal)
-						if ok && i < limit && source[i] == ';' {
+						if ok && i < limit && i-start < 7 && source[i] == ';' {
 							v, _ := strconv.ParseUint(BytesToReadOnlyString(source[start:i]), 16, 32)
 							cob.Write(source[n:pos])
 							n = i + 1
@@ -621,7 +621,7 @@ func ResolveNumericReferences(source []byte) []byte {
 						start := nnext
 						i, ok = ReadWhile(source, [2]int{start, limit}, IsNumeric)
 						if ok && i < limit && i-start < 8 && source[i] == ';' {
-							v, _ := strconv.ParseUint(BytesToReadOnlyString(source[start:i]), 0, 32)
+							v, _ := strconv.ParseUint(BytesToReadOnlyString(source[start:i]), 10, 32)
 							cob.Write(source[n:pos])
 							n = i + 1
 							runeSize := utf8.EncodeRune(buf, ToValidRune(rune(v)))
